@@ -174,3 +174,20 @@ reg("C06", level="other", engine="E-FLOW+E-TAB+E-GRAM", design_ref="DESIGN.md §
                "frozen reasons for the sites of location(). Dependencies' internals are out of scope.",
     exhaustive=True, assumptions=["INV-NUM: components stored in a Range are <= MAX_SAFE_INTEGER + 1",
                                   "panics inside dependencies are not analysed", "running time is not analysed"])
+
+reg("C05", level="other", engine="E-GRAM+E-TAB+E-FLOW", design_ref="DESIGN.md §5 C05, §3.4",
+    technique="winnow grammar extracted from MIR as combinator trees and compiled to exact PEG automata (M/F denotations); "
+              "regular-language inclusion against reference automata with shortest counterexamples; character classes and "
+              "guards by abstract interpretation",
+    explanation="The grammar reachable from `version` is extracted from MIR and compiled to automata with exact PEG semantics "
+                "(ordered choice, greedy repetition, no backtracking into a successful sub-parser). Decided: L_canon <= "
+                "L(Version::parse) <= L_loose (hyphen-less prerelease, v prefix and surrounding blanks allowed); no accepted "
+                "input leaves text unconsumed; the identifier class is exactly [0-9A-Za-z-] on an abstraction of char that is "
+                "exact for `as u8` and ASCII comparisons; number() accepts exactly v <= MAX_SAFE_INTEGER and returns it "
+                "unchanged; over-long inputs are rejected before parsing; the closures of version()/version_core() wire each "
+                "component to the field of its name; serde delegates to parse/Display.",
+    level_text="Other: the language inclusions are exact and unbounded for the extracted automaton; the transcription of "
+               "winnow 0.6's combinator semantics into the M/F constructions is trusted.",
+    level_note="Trusted: rustc MIR, interpreter/models, the M/F denotations of eleven winnow combinators (engine/peg.py), "
+               "the reference languages. Numeric bounds are the guard rows, not part of the language check.",
+    exhaustive=True, assumptions=["winnow 0.6 combinator semantics as transcribed in engine/peg.py"])
